@@ -14,16 +14,23 @@ PROPS = {
                        'stored as (function, *static inputs, *predecessor keys in predecessor order)',
     },
     'C06': {
-        'level': 'exploration',
+        'level': 'other',
+        'proof': [('contracts.value_classes', None)],
         'custom': [('contracts.b_structs', 'bounded_value_classes')],
-        'assumptions': [],
-        'explanation': 'bounded contract check only',
+        'assumptions': [PY_SUBSET],
+        'explanation': 'eq-refl / eq-sym / eq=>hash laws proved for 11 value classes by symbolic execution of '
+                       'their real __eq__/__hash__; every value class (25) and the well-formedness of created '
+                       'objects checked on a bounded corpus; the frame property (no API call modifies its input) '
+                       'is covered only where the bounded checks of other properties compare inputs before/after',
     },
     'C12': {
-        'level': 'exploration',
+        'level': 'other',
+        'proof': [('contracts.value_classes', None)],
         'custom': [('contracts.b_structs', 'bounded_modelhash'), ('contracts.b_structs', 'bounded_value_classes')],
-        'assumptions': [],
-        'explanation': 'bounded contract check only',
+        'assumptions': [PY_SUBSET],
+        'explanation': 'eq=>to_dict-equal and from_dict(to_dict(x)) == x proved (without the JSON layer) for the '
+                       'simple component classes; JSON round trips of all classes and ModelHash stability across '
+                       'interpreters and build orders are bounded checks',
     },
     'C16': {
         'level': 'proof',
